@@ -5,7 +5,7 @@
    records (Spec/Answer.spec_response, Spec/AnswerExtra.addr_records). *)
 From DnsV Require Import Base.Bytes Model.Store Model.LookupV1 Model.Serve.
 From DnsV Require Import Spec.Answer Spec.Rows Spec.AnswerExtra.
-From DnsV Require Import Proofs.Compile Proofs.AnswerItems Proofs.AuthSections Proofs.FileLevel.
+From DnsV Require Import Proofs.Compile Proofs.Referral Proofs.SoaAuth Proofs.AnswerItems Proofs.AuthSections Proofs.FileLevel.
 From DnsV Require Model.Wrs Proofs.Wrs.
 From DnsV Require Import Model.ComposeMore.
 From Coq Require Import Lia Permutation ZifyN ZifyNat ZifyBool.
@@ -189,3 +189,421 @@ Proof.
     + unfold nlen. rewrite Ln. lia.
 Qed.
 End Pick.
+
+(* ------------------------------------------------------------------ keys of items and records *)
+Lemma item_is_key : forall t ty j, item_is t ty j = true <-> item_key j = (t, ty).
+Proof.
+  intros t ty j. destruct j as [r|o ty' c cs k]; cbn [item_is item_key]; rewrite andb_true_iff, N.eqb_eq, bytes_eqb_eq;
+    split; [intros [-> ->]; reflexivity|intros E; inversion E; split; reflexivity
+           |intros [-> ->]; reflexivity|intros E; inversion E; split; reflexivity].
+Qed.
+
+Lemma existsb_item_is_false : forall t ty l, existsb (item_is t ty) l = false ->
+  forall j, In j l -> item_key j <> (t, ty).
+Proof.
+  intros t ty l H j Hj E. apply item_is_key in E.
+  assert (X : existsb (item_is t ty) l = true) by (apply existsb_exists; exists j; split; assumption).
+  rewrite H in X. discriminate.
+Qed.
+
+Lemma has_record_false : forall an ns ex t ty, has_record (mkMsg an ns ex) t ty = false ->
+  forall j, In j (an ++ ns ++ ex) -> item_key j <> (t, ty).
+Proof.
+  intros an ns ex t ty H j Hj. unfold has_record in H. cbn [m_an m_ns m_ex] in H.
+  apply orb_false_iff in H as [H Hx]. apply orb_false_iff in H as [Ha Hn].
+  apply in_app_or in Hj as [Hj|Hj]; [exact (existsb_item_is_false _ _ _ Ha j Hj)|].
+  apply in_app_or in Hj as [Hj|Hj]; [exact (existsb_item_is_false _ _ _ Hn j Hj)|exact (existsb_item_is_false _ _ _ Hx j Hj)].
+Qed.
+
+Lemma nodup_snoc : forall {X} (l : list X) x, NoDup l -> ~ In x l -> NoDup (l ++ [x]).
+Proof.
+  intros X l x ND Nx. apply (Permutation_NoDup (l := x :: l)); [apply Permutation_cons_append|].
+  constructor; assumption.
+Qed.
+
+(* the additional section never repeats an (owner, type) of the message *)
+Lemma extras_keys : forall recs L qc an ns ex, extras_sound recs L qc an ns ex ->
+  NoDup (map item_key ex) /\
+  forall i, In i ex -> forall j, In j (an ++ ns) -> item_key j <> item_key i.
+Proof.
+  intros recs L qc an ns ex H. induction H as [|pre i Hp [ND IH] (t & ty & cands & -> & _ & _ & Hr & _)].
+  - split; [constructor|contradiction].
+  - pose proof (has_record_false an ns pre t ty Hr) as Hk. split.
+    + rewrite map_app. cbn [map item_key]. apply nodup_snoc; [exact ND|].
+      intros Hin. apply in_map_iff in Hin as (j & Ej & Hj). apply (Hk j); [|exact Ej].
+      apply in_or_app. right. apply in_or_app. right. exact Hj.
+    + intros i Hi j Hj. apply in_app_or in Hi as [Hi|[<-|[]]]; [exact (IH i Hi j Hj)|].
+      cbn [item_key]. apply Hk. rewrite app_assoc. apply in_or_app. left. exact Hj.
+Qed.
+
+Section Sections.
+Variable K : Type.
+Variable klt : K -> K -> bool.
+Variable kpos : K -> bool.
+Hypothesis klt_irrefl : forall a, klt a a = false.
+Hypothesis klt_trans : forall a b c, klt a b = true -> klt b c = true -> klt a c = true.
+Hypothesis kzero_below : forall z a, kpos z = false -> kpos a = true -> klt z a = true.
+Variable keyof : N -> N -> K.
+Hypothesis keyof_pos : forall u w, u <= Model.Wrs.maxU32 -> kpos (keyof u w) = Model.Wrs.dk_pos (u, w).
+
+Notation rfrom := (realise_from K klt kpos keyof).
+
+Lemma realise_from_app : forall max ds l1 l2 i,
+  rfrom max ds i (l1 ++ l2) = rfrom max ds i l1 ++ rfrom max ds (i + length l1) l2.
+Proof.
+  intros max ds l1 l2. induction l1 as [|a t IH]; intros i; cbn [app realise_from length].
+  - rewrite Nat.add_0_r. reflexivity.
+  - rewrite IH, app_assoc, Nat.add_succ_comm. reflexivity.
+Qed.
+
+Lemma realise_from_irr : forall max ds (f : record -> rr) l i,
+  rfrom max ds i (map (fun r => IRR (f r)) l) = map f l.
+Proof.
+  intros max ds f l. induction l as [|a t IH]; intros i; cbn [map realise_from realise_item app]; [reflexivity|].
+  rewrite IH. reflexivity.
+Qed.
+
+(* a realised record has the (owner, type) of its item *)
+Lemma realise_keys : forall max ds l i r, In r (rfrom max ds i l) -> exists j, In j l /\ item_key j = rr_key r.
+Proof.
+  intros max ds l. induction l as [|a t IH]; intros i r H; cbn [realise_from] in H; [contradiction|].
+  apply in_app_or in H as [H|H].
+  - exists a. split; [left; reflexivity|]. destruct a as [r0|o ty c cs k]; cbn [realise_item] in H.
+    + destruct H as [<-|[]]. reflexivity.
+    + unfold realise_pick in H. apply in_map_iff in H as (p & <- & _). reflexivity.
+  - destruct (IH _ _ H) as (j & Hj & E). exists j. split; [right; exact Hj|exact E].
+Qed.
+
+Lemma type_filter_forall : forall ty (l : list record), Forall (fun r => r_type r = ty) (filter (fun r => r_type r =? ty) l).
+Proof. intros ty l. apply Forall_forall. intros r Hr. apply filter_In in Hr as [_ E]. apply N.eqb_eq. exact E. Qed.
+
+Lemma item_count_app : forall a b, item_count (a ++ b) = item_count a + item_count b.
+Proof.
+  induction a as [|i a IH]; intros b; cbn [app item_count fold_right]; [reflexivity|].
+  fold (item_count (a ++ b)). fold (item_count a). rewrite IH. destruct i; lia.
+Qed.
+
+Lemma item_count_irr : forall (f : record -> rr) l, item_count (map (fun r => IRR (f r)) l) = nlen l.
+Proof.
+  intros f l. induction l as [|a t IH]; [reflexivity|]. cbn [map item_count fold_right].
+  fold (item_count (map (fun r => IRR (f r)) t)). rewrite IH. unfold nlen. cbn [length]. lia.
+Qed.
+
+Lemma item_count_wrs_items : forall o cls max ty c, item_count (wrs_items o cls max ty c) = npick max c.
+Proof.
+  intros. unfold wrs_items. destruct (npick max c =? 0) eqn:E; cbn [item_count fold_right]; [apply N.eqb_eq in E|]; lia.
+Qed.
+
+Lemma npick_cands : forall max (rs : list record), npick max (map cand_of rs) = N.min max (nlen (filter posw rs)).
+Proof. intros. unfold npick, npos, nlen. f_equal. f_equal. exact (count_cands rs). Qed.
+
+(* the answer section of an authoritative reply, realised *)
+Lemma realise_answer_items : forall ds qname (max : N) ord,
+  (forall i j, 0 < ds i j < Model.Wrs.maxU32) ->
+  exists chosen4 chosen6,
+    rfrom (Z.of_N max) ds 0 (answer_items qname max ord) =
+      map (rr_of_rec qname 1) (filter (fun r => negb (is_addr_rec r)) ord ++ chosen4 ++ chosen6) /\
+    family_sound max (filter (fun r => r_type r =? 1) ord) chosen4 /\
+    family_sound max (filter (fun r => r_type r =? 28) ord) chosen6 /\
+    nlen (rfrom (Z.of_N max) ds 0 (answer_items qname max ord)) = item_count (answer_items qname max ord).
+Proof.
+  intros ds qname max ord Hd. unfold answer_items. rewrite !realise_from_app.
+  set (i1 := (0 + length (map (item_of qname) (filter (fun r => negb (is_addr_rec r)) ord)))%nat).
+  set (c4 := wrs_items qname 1 max 1 (map cand_of (filter (fun r => r_type r =? 1) ord))).
+  destruct (realise_wrs_items K klt kpos klt_irrefl klt_trans kzero_below keyof keyof_pos ds i1 qname 1 max 1
+              (filter (fun r => r_type r =? 1) ord) (or_introl eq_refl) Hd (type_filter_forall 1 ord)) as (ch4 & E4 & F4).
+  destruct (realise_wrs_items K klt kpos klt_irrefl klt_trans kzero_below keyof keyof_pos ds (i1 + length c4)%nat qname 1 max 28
+              (filter (fun r => r_type r =? 28) ord) (or_intror eq_refl) Hd (type_filter_forall 28 ord)) as (ch6 & E6 & F6).
+  fold c4 in E4. rewrite E4, E6. unfold item_of. rewrite (realise_from_irr (Z.of_N max) ds (rr_of_rec qname 1)).
+  exists ch4, ch6. split; [rewrite !map_app; reflexivity|]. split; [exact F4|]. split; [exact F6|].
+  rewrite !item_count_app, (item_count_irr (rr_of_rec qname 1)). unfold c4. rewrite !item_count_wrs_items, !npick_cands.
+  destruct F4 as (_ & _ & L4). destruct F6 as (_ & _ & L6). rewrite <- L4, <- L6.
+  unfold nlen. rewrite !app_length, !map_length. lia.
+Qed.
+
+(* ---------------------------------------------------------------- the additional section, realised *)
+Definition ex_rr (qc : N) (c : bytes * N * record) : rr :=
+  mkRR (fst (fst c)) (snd (fst c)) qc (r_ttl (snd c)) (r_rdata (snd c)).
+
+Lemma realise_extras : forall recs L qc an ns ex ds,
+  (forall i j, 0 < ds i j < Model.Wrs.maxU32) ->
+  extras_sound recs L qc an ns ex ->
+  exists chosen : list (bytes * N * record),
+    rfrom 1 ds 0 ex = map (ex_rr qc) chosen /\
+    map fst chosen = map item_key ex /\
+    Forall (fun c => (snd (fst c) = 1 \/ snd (fst c) = 28) /\
+                     In (snd c) (addr_records L recs (fst (fst c)) (snd (fst c))) /\
+                     0 < r_weight (snd c) /\
+                     exists it, In it (an ++ ns) /\ target_of it = Some (fst (fst c))) chosen.
+Proof.
+  intros recs L qc an ns ex ds Hd H.
+  induction H as [|pre i Hp (chosen & E & Ek & F) (t & ty & cands & -> & Hty & Htg & _ & Hn & rs & -> & P)].
+  - exists []. split; [reflexivity|]. split; [reflexivity|constructor].
+  - assert (Hrs : Forall (fun r => r_type r = ty) rs).
+    { apply Forall_forall. intros r Hr. apply (Permutation_in _ P) in Hr. unfold addr_records in Hr.
+      apply filter_In in Hr as [_ Hr]. apply andb_true_iff in Hr as [Hr _]. apply andb_true_iff in Hr as [_ Hr].
+      apply N.eqb_eq. exact Hr. }
+    destruct (realise_pick_sound K klt kpos klt_irrefl klt_trans kzero_below keyof keyof_pos 1 (ds (0 + length pre)%nat)
+                t ty qc rs ltac:(lia) Hty (Hd _) Hrs) as (ch & Ec & (rest & R) & Fw & Ln).
+    rewrite npick_cands in Hn.
+    assert (L1 : length ch = 1%nat) by (unfold nlen in Hn; rewrite Ln; lia).
+    destruct ch as [|r [|r2 ch]]; try discriminate L1.
+    assert (Hin : In r rs) by (apply (Permutation_in _ R); left; reflexivity).
+    assert (Hrt : r_type r = ty) by (rewrite Forall_forall in Hrs; exact (Hrs r Hin)).
+    exists (chosen ++ [(t, ty, r)]). split; [|split].
+    + rewrite realise_from_app, E. cbn [realise_from realise_item]. rewrite app_nil_r, Ec, map_app.
+      cbn [map]. unfold ex_rr, rr_of_rec. cbn [fst snd]. rewrite Hrt. reflexivity.
+    + rewrite !map_app, Ek. reflexivity.
+    + apply Forall_app. split; [exact F|]. constructor; [|constructor]. cbn [fst snd].
+      split; [exact Hty|]. split; [|split; [inversion Fw; assumption|exact Htg]].
+      apply (Permutation_in _ P). exact Hin.
+Qed.
+End Sections.
+
+(* ================================================================== the realised response *)
+(* the additional section with the picks drawn.  [chosen]: (target, family, declared record) per record *)
+Definition extras_realised_sound (L : bytes) (recs : list record) (qc : N) (an ns : list item) (y : cresponse) : Prop :=
+  exists chosen : list (bytes * N * record),
+    c_ex y = map (ex_rr qc) chosen /\
+    NoDup (map fst chosen) /\
+    Forall (fun c => let t := fst (fst c) in let ty := snd (fst c) in let r := snd c in
+              (ty = 1 \/ ty = 28) /\
+              In r (addr_records L recs t ty) /\
+              0 < r_weight r /\
+              (exists it, In it (an ++ ns) /\ target_of it = Some t) /\
+              (forall r', In r' (c_an y ++ c_ns y) -> rr_key r' <> (t, ty))) chosen.
+
+Definition ns_rr (zname : bytes) (cls : N) (r : record) : rr := mkRR zname 2 cls (r_ttl r) (r_rdata r).
+Definition soa_rr (zname : bytes) (r : record) : rr := mkRR zname 6 1 (r_ttl r) (r_rdata r).
+
+Definition served_addresses_sound (L : bytes) (recs : list record) (n : name) (q : query) (ecs : option ecsval)
+           (max : N) (x : response) (y : cresponse) : Prop :=
+  c_id y = q_id q /\ c_question y = question_of q /\ c_rcode y = rs_rcode x /\ c_aa y = rs_aa x /\
+  match spec_response L recs n (q_type q) with
+  | Refused => c_rcode y = 5 /\ c_an y = [] /\ c_ns y = [] /\ c_ex y = [] /\ nlen (c_an y) = item_count (rs_an x)
+  | Referral z nsr =>
+      q_type q <> 43 ->
+      c_rcode y = 0 /\ c_an y = [] /\ nlen (c_an y) = item_count (rs_an x) /\
+      (exists ord, Permutation ord nsr /\ c_ns y = map (ns_rr (pack z) (q_class q)) ord) /\
+      extras_realised_sound L recs (q_class q) (rs_an x) (rs_ns x) y
+  | Answer z nx ans soa =>
+      c_rcode y = (if nx then 3 else 0) /\ (ans <> [] -> c_rcode y = 0) /\
+      nlen (c_an y) = item_count (rs_an x) /\
+      (exists others chosen4 chosen6,
+         c_an y = map (rr_of_rec (q_name q) 1) (others ++ chosen4 ++ chosen6) /\
+         Permutation others (filter (fun r => negb (is_addr_rec r)) ans) /\
+         family_sound max (of_type 1 ans) chosen4 /\
+         family_sound max (of_type 28 ans) chosen6) /\
+      (match c_an y with
+       | [] => exists r, In r soa /\ c_ns y = [soa_rr (pack z) r]
+       | _ => c_ns y = []
+       end) /\
+      extras_realised_sound L recs (q_class q) (rs_an x) (rs_ns x) y
+  end.
+
+Lemma answer_nonempty_found : forall L recs n qtype z nx ans soa,
+  spec_response L recs n qtype = Answer z nx ans soa -> ans <> [] -> nx = false.
+Proof.
+  intros L recs n qtype z nx ans soa H Hne. unfold spec_response in H.
+  destruct (zone_cut L recs n) as [z'|]; [|discriminate].
+  destruct (negb (authoritative L recs z')); [discriminate|]. inversion H; subst.
+  destruct (source_records L recs z n); [exfalso; apply Hne; reflexivity|reflexivity].
+Qed.
+
+Section Main.
+Variable K : Type.
+Variable klt : K -> K -> bool.
+Variable kpos : K -> bool.
+Hypothesis klt_irrefl : forall a, klt a a = false.
+Hypothesis klt_trans : forall a b c, klt a b = true -> klt b c = true -> klt a c = true.
+Hypothesis kzero_below : forall z a, kpos z = false -> kpos a = true -> klt z a = true.
+Variable keyof : N -> N -> K.
+Hypothesis keyof_pos : forall u w, u <= Model.Wrs.maxU32 -> kpos (keyof u w) = Model.Wrs.dk_pos (u, w).
+
+Lemma extras_realised : forall L recs qc an ns ex (dr : draws) max (x : response),
+  (forall s i j, 0 < dr s i j < Model.Wrs.maxU32) ->
+  rs_an x = an -> rs_ns x = ns -> rs_ex x = ex ->
+  extras_sound recs L qc an ns ex ->
+  extras_realised_sound L recs qc an ns (realise K klt kpos keyof dr max x).
+Proof.
+  intros L recs qc an ns ex dr max x Hd <- <- <- H.
+  destruct (realise_extras K klt kpos klt_irrefl klt_trans kzero_below keyof keyof_pos recs L qc _ _ _ (dr sec_ex) (Hd sec_ex) H)
+    as (chosen & E & Ek & F).
+  destruct (extras_keys recs L qc _ _ _ H) as (ND & Hk).
+  exists chosen. split; [exact E|]. split; [rewrite Ek; exact ND|].
+  rewrite Forall_forall in F. apply Forall_forall. intros c Hc. destruct (F c Hc) as (F1 & F2 & F3 & F4).
+  cbn zeta. split; [exact F1|]. split; [exact F2|]. split; [exact F3|]. split; [exact F4|].
+  intros r' Hr' Er'.
+  assert (Hi : exists i, In i (rs_ex x) /\ item_key i = fst c).
+  { assert (Hf : In (fst c) (map item_key (rs_ex x))) by (rewrite <- Ek; apply in_map; exact Hc).
+    apply in_map_iff in Hf as (i & Ei & Hi). exists i. split; assumption. }
+  destruct Hi as (i & Hi & Ei).
+  assert (Hj : exists j, In j (rs_an x ++ rs_ns x) /\ item_key j = rr_key r').
+  { cbn [c_an c_ns realise] in Hr'. apply in_app_or in Hr' as [Hr'|Hr'];
+      destruct (realise_keys K klt kpos keyof _ _ _ _ _ Hr') as (j & Hj & Ej); exists j; (split; [|exact Ej]);
+      apply in_or_app; [left|right]; exact Hj. }
+  destruct Hj as (j & Hj & Ej).
+  apply (Hk i Hi j Hj). rewrite Ei, Ej, Er'. destruct c as ((t, ty), r). reflexivity.
+Qed.
+
+Lemma irr_only_ns : forall max ds f (ord : list record),
+  realise_from K klt kpos keyof max ds 0 (map (fun r => IRR (f r)) ord) = map f ord.
+Proof. intros. apply realise_from_irr. Qed.
+
+(* C11 x C01: what the served response holds once the picks are drawn *)
+Theorem realise_refines : forall L recs n q ecs max x (dr : draws),
+  response_refines L recs n q ecs max x ->
+  (forall s i j, 0 < dr s i j < Model.Wrs.maxU32) ->
+  served_addresses_sound L recs n q ecs max x (realise K klt kpos keyof dr max x).
+Proof.
+  intros L recs n q ecs max x dr (Hid & Hq & H) Hd. unfold served_addresses_sound.
+  split; [exact Hid|]. split; [exact Hq|]. split; [reflexivity|]. split; [reflexivity|].
+  destruct (spec_response L recs n (q_type q)) as [|z nsr|z nx ans soa] eqn:Es.
+  - destruct H as (H1 & H2 & H3 & H4 & H5 & H6). cbn [realise c_an c_ns c_ex c_rcode]. rewrite H3, H4, H5.
+    split; [exact H1|]. repeat split.
+  - intros N43. destruct (H N43) as (H1 & H2 & H3 & (ord & P & H4) & H5 & H6).
+    cbn [realise c_an c_ns c_rcode]. split; [exact H1|]. split; [rewrite H3; reflexivity|]. split; [rewrite H3; reflexivity|]. split.
+    + exists ord. split; [exact P|]. rewrite H4. unfold ns_item. apply (irr_only_ns _ _ (ns_rr (pack z) (q_class q))).
+    + exact (extras_realised L recs (q_class q) _ _ _ dr max x Hd eq_refl eq_refl eq_refl H5).
+  - destruct H as (H1 & H2 & (ord & P & H3) & H4 & H5 & H6).
+    destruct (realise_answer_items K klt kpos klt_irrefl klt_trans kzero_below keyof keyof_pos (dr sec_an) (q_name q) max ord (Hd sec_an))
+      as (ch4 & ch6 & Ean & F4 & F6 & Ecount).
+    assert (Ecan : c_an (realise K klt kpos keyof dr max x) =
+                   map (rr_of_rec (q_name q) 1) (filter (fun r => negb (is_addr_rec r)) ord ++ ch4 ++ ch6)).
+    { cbn [realise c_an]. rewrite H3. exact Ean. }
+    assert (Ecnt : nlen (c_an (realise K klt kpos keyof dr max x)) = item_count (rs_an x)).
+    { cbn [realise c_an]. rewrite H3. exact Ecount. }
+    split; [exact H1|]. split.
+    { intros Hne. cbn [realise c_rcode]. rewrite H1, (answer_nonempty_found _ _ _ _ _ _ _ _ Es Hne). reflexivity. }
+    split; [exact Ecnt|]. split.
+    { exists (filter (fun r => negb (is_addr_rec r)) ord), ch4, ch6. split; [exact Ecan|].
+      split; [apply perm_filter; exact P|].
+      split; [exact (family_sound_perm _ _ _ _ (perm_filter _ _ _ P) F4)|exact (family_sound_perm _ _ _ _ (perm_filter _ _ _ P) F6)]. }
+    split.
+    { destruct (item_count (rs_an x) =? 0) eqn:E0.
+      - apply N.eqb_eq in E0. rewrite E0 in Ecnt.
+        destruct (c_an (realise K klt kpos keyof dr max x)) as [|a t]; [|unfold nlen in Ecnt; cbn [length] in Ecnt; lia].
+        destruct H4 as (r & Hr & E). exists r. split; [exact Hr|]. cbn [realise c_ns]. rewrite E. reflexivity.
+      - apply N.eqb_neq in E0.
+        destruct (c_an (realise K klt kpos keyof dr max x)) as [|a t]; [unfold nlen in Ecnt; cbn [length] in Ecnt; lia|].
+        cbn [realise c_ns]. rewrite H4. reflexivity. }
+    exact (extras_realised L recs (q_class q) _ _ _ dr max x Hd eq_refl eq_refl eq_refl H5).
+Qed.
+End Main.
+
+(* ------------------------------------------------------------------ one record per family and target:
+   the counting form of C11_additional_section_one_per_family, on the realised message *)
+Definition kcount (t : bytes) (ty : N) (l : list rr) : nat :=
+  length (filter (fun r => bytes_eqb (rr_owner r) t && (rr_type r =? ty)) l).
+
+Lemma kcount_app : forall t ty a b, kcount t ty (a ++ b) = (kcount t ty a + kcount t ty b)%nat.
+Proof. intros. unfold kcount. rewrite filter_app, app_length. reflexivity. Qed.
+
+Lemma keyb_spec : forall t ty r, bytes_eqb (rr_owner r) t && (rr_type r =? ty) = true <-> rr_key r = (t, ty).
+Proof.
+  intros t ty r. unfold rr_key. rewrite andb_true_iff, bytes_eqb_eq, N.eqb_eq. split; [intros [-> ->]; reflexivity|].
+  intros E. inversion E. split; reflexivity.
+Qed.
+
+Lemma kcount_zero : forall t ty l, (forall r, In r l -> rr_key r <> (t, ty)) -> kcount t ty l = 0%nat.
+Proof.
+  intros t ty l H. unfold kcount. induction l as [|a l IH]; [reflexivity|]. cbn [filter].
+  destruct (bytes_eqb (rr_owner a) t && (rr_type a =? ty)) eqn:E.
+  - apply keyb_spec in E. exfalso. exact (H a (or_introl eq_refl) E).
+  - apply IH. intros r Hr. apply H. right. exact Hr.
+Qed.
+
+Lemma kcount_pos : forall t ty l, (0 < kcount t ty l)%nat -> exists r, In r l /\ rr_key r = (t, ty).
+Proof.
+  intros t ty l. unfold kcount. induction l as [|a l IH]; cbn [filter length]; [lia|].
+  destruct (bytes_eqb (rr_owner a) t && (rr_type a =? ty)) eqn:E.
+  - intros _. exists a. split; [left; reflexivity|apply keyb_spec; exact E].
+  - intros H. destruct (IH H) as (r & Hr & Er). exists r. split; [right; exact Hr|exact Er].
+Qed.
+
+Lemma kcount_nodup : forall t ty l, NoDup (map rr_key l) -> (kcount t ty l <= 1)%nat.
+Proof.
+  intros t ty l. induction l as [|a l IH]; intros ND; [cbn; lia|]. cbn [map] in ND. inversion ND as [|? ? Na ND']; subst.
+  unfold kcount. cbn [filter]. destruct (bytes_eqb (rr_owner a) t && (rr_type a =? ty)) eqn:E.
+  - apply keyb_spec in E. cbn [length]. fold (kcount t ty l). rewrite kcount_zero; [lia|].
+    intros r Hr Er. apply Na. rewrite E, <- Er. apply in_map. exact Hr.
+  - apply IH. exact ND'.
+Qed.
+
+Theorem realised_one_per_family : forall L recs qc an ns y,
+  extras_realised_sound L recs qc an ns y ->
+  forall t ty, (kcount t ty (c_an y ++ c_ns y ++ c_ex y) <= Nat.max 1 (kcount t ty (c_an y ++ c_ns y)))%nat.
+Proof.
+  intros L recs qc an ns y (chosen & E & ND & F) t ty. rewrite app_assoc, kcount_app.
+  assert (Ek : map rr_key (c_ex y) = map fst chosen).
+  { rewrite E, map_map. apply map_ext. intros ((t0, ty0), r). reflexivity. }
+  assert (H1 : (kcount t ty (c_ex y) <= 1)%nat) by (apply kcount_nodup; rewrite Ek; exact ND).
+  destruct (kcount t ty (c_an y ++ c_ns y)) as [|m] eqn:Em; [lia|].
+  assert (H0 : kcount t ty (c_ex y) = 0%nat).
+  { apply kcount_zero. intros r Hr Er.
+    assert (Hp : (0 < kcount t ty (c_an y ++ c_ns y))%nat) by lia.
+    destruct (kcount_pos _ _ _ Hp) as (r' & Hr' & Er').
+    assert (Hc : In (rr_key r) (map fst chosen)) by (rewrite <- Ek; apply in_map; exact Hr).
+    apply in_map_iff in Hc as (c & Ec & Hc). rewrite Forall_forall in F. destruct (F c Hc) as (_ & _ & _ & _ & Hno).
+    cbn zeta in Hno. apply (Hno r' Hr'). rewrite Er', <- Er, <- Ec. destruct c as ((a, b), c). reflexivity. }
+  lia.
+Qed.
+
+(* ================================================================== composition with C01 *)
+From DnsV Require Import Proofs.ZoneCut Proofs.V2Store Proofs.AuthSectionsV2.
+From DnsV Require Model.Compose Proofs.Compose.
+
+Section Composed.
+Variable K : Type.
+Variable klt : K -> K -> bool.
+Variable kpos : K -> bool.
+Hypothesis klt_irrefl : forall a, klt a a = false.
+Hypothesis klt_trans : forall a b c, klt a b = true -> klt b c = true -> klt a c = true.
+Hypothesis kzero_below : forall z a, kpos z = false -> kpos a = true -> klt z a = true.
+Variable keyof : N -> N -> K.
+Hypothesis keyof_pos : forall u w, u <= Model.Wrs.maxU32 -> kpos (keyof u w) = Model.Wrs.dk_pos (u, w).
+
+(* label-by-label reader (CDB, RocksDB v1 keys) over the compiled store: C01_response_is_spec *)
+Theorem served_addresses_sound_v1 : forall b recs L, wf_recs recs -> Forall wf_ns_rdata recs -> length L = 2%nat ->
+  b <> RDB2 -> wf_view L recs = true -> forall q n ecs max x (dr : draws),
+  wf_name n -> nlen (pack n) <= 255 -> lower_bytes (q_name q) = pack n ->
+  (q_edns q = None \/ q_edns q = Some 0) ->
+  serve b (store_v1 recs) q (LocOk L) ecs max = OReply x ->
+  (forall s i j, 0 < dr s i j < Model.Wrs.maxU32) ->
+  served_addresses_sound L recs n q ecs max x (realise K klt kpos keyof dr max x).
+Proof.
+  intros b recs L W WN HL Hb V q n ecs max x dr Hn Hl Hq He Hs Hd.
+  apply (realise_refines K klt kpos klt_irrefl klt_trans kzero_below keyof keyof_pos); [|exact Hd].
+  exact (response_is_spec_v1 b recs L W WN HL Hb V q n ecs max x Hn Hl Hq He Hs).
+Qed.
+
+(* closest-key reader (RocksDB v2 keys): C01_response_is_spec_v2 *)
+Theorem served_addresses_sound_v2 : forall recs L, wf_recs recs -> Forall wf_ns_rdata recs -> length L = 2%nat ->
+  wf_view L recs = true -> forall q n ecs max x (dr : draws),
+  wf_name n -> nlen (pack n) <= 255 -> lower_bytes (q_name q) = pack n ->
+  (q_edns q = None \/ q_edns q = Some 0) ->
+  serve RDB2 (store_v2 recs) q (LocOk L) ecs max = OReply x ->
+  (forall s i j, 0 < dr s i j < Model.Wrs.maxU32) ->
+  served_addresses_sound L recs n q ecs max x (realise K klt kpos keyof dr max x).
+Proof.
+  intros recs L W WN HL V q n ecs max x dr Hn Hl Hq He Hs Hd.
+  apply (realise_refines K klt kpos klt_irrefl klt_trans kzero_below keyof keyof_pos); [|exact Hd].
+  exact (response_is_spec_v2 recs L W WN HL V q n ecs max x Hn Hl Hq He Hs).
+Qed.
+
+(* every database form of Proofs/Compose.gen_declares: the two row-level compilations and everything
+   the modelled compilers produce from the TEXT of a well-formed data file (C01_file_level: CDB from any
+   record stream, RocksDB by builder or batches in either key layout) *)
+Theorem served_addresses_sound_gen : forall g L recs, Proofs.Compose.gen_declares g L recs ->
+  forall q n ecs max x (dr : draws),
+  wf_name n -> nlen (pack n) <= 255 -> lower_bytes (q_name q) = pack n ->
+  (q_edns q = None \/ q_edns q = Some 0) ->
+  serve (Model.Compose.g_backend g) (Model.Compose.g_store g) q (LocOk L) ecs max = OReply x ->
+  (forall s i j, 0 < dr s i j < Model.Wrs.maxU32) ->
+  served_addresses_sound L recs n q ecs max x (realise K klt kpos keyof dr max x).
+Proof.
+  intros g L recs D q n ecs max x dr Hn Hl Hq He Hs Hd.
+  apply (realise_refines K klt kpos klt_irrefl klt_trans kzero_below keyof keyof_pos); [|exact Hd].
+  exact (Proofs.Compose.declares_serves g L recs D q n ecs max x Hn Hl Hq He Hs).
+Qed.
+End Composed.
